@@ -95,10 +95,11 @@ theorem sub_ok (s : Slice) (lo hi : Nat) (h1 : lo ≤ hi) (h2 : hi ≤ s.cap) :
   congr 2
   omega
 
-theorem make_ok [Inhabited α] (m : Mem α) (n : Nat) :
+theorem make_ok [Inhabited α] (m : Mem α) (n : Nat) (h : IsInt64 (n : Int)) :
     Mem.make m (n : Int) = .ok (m ++ [List.replicate n default], ⟨m.length, 0, n, n⟩) := by
   unfold Mem.make
-  simp
+  have : (0 : Int) ≤ (n : Int) ∧ (n : Int) < 9223372036854775808 := by unfold IsInt64 at h; omega
+  simp [this]
 
 theorem copy_eq (m : Mem α) (dst src : Slice) :
     Mem.copy m dst src = m.setArr dst.arr (splice (m.arr dst.arr) dst.off ((m.view src).take (min dst.len src.len))) := by
